@@ -62,7 +62,7 @@ def _gen(rng, entry):
 
     xobj = (not is_df) and rng.random() < 0.2
     if xobj:
-        c["xobj"] = rng.choice(["dataset:3", "dataset:2", "dataarray:2", "dict:3"])
+        c["xobj"] = rng.choice(["dataset:3", "dataset:2", "dataarray:2", "dict:3", "datasetnc:3", "dataarraync:2", "datasetnc:2"])
         c["outputs"] = None
     else:
         c["xobj"] = None
@@ -171,6 +171,10 @@ def run_case(ctx, case):
         dim_values = {"t": [10.0 * i for i in range(nt)]}
         dimsize = {"t": nt}
         const_dims = {}
+        if "nc:" in kind:
+            # the function's data has no coordinate for 't': a constant naming the dimension supplies it
+            dim_values = {"t": [round(1.5 + i, 2) for i in range(nt)]}
+            const_dims = {"t": dim_values["t"]}
     else:
         def spec(o):
             if not o["dims"]:
@@ -385,6 +389,9 @@ def run_case(ctx, case):
                     bad.append("internal coordinate %s = %s, expected %s" % (
                         d, ds[d].values.tolist() if d in ds.coords else None, dim_values[d]))
     # constants / resources / attrs
+    for k in const_dims:
+        if k in ds.attrs:
+            bad.append("constant %r names a dimension but was recorded as an attribute (attrs=%r)" % (k, sorted(ds.attrs)))
     for k, v in eff_constants.items():
         if k in const_dims or k in ds.dims:
             continue
